@@ -3,6 +3,7 @@ package mon
 import (
 	"fmt"
 	"math/rand"
+	"runtime"
 	"sort"
 	"unsafe"
 
@@ -479,6 +480,72 @@ func monC07(c *drv.Ctx) {
 			cs.Count(true, "oversized-value", cs.Idx)
 		})
 	}
+
+	// (2b3) values that contain pointers (strings, structs with a string and a pointer) and that ONLY the map
+	// references after the load: they must survive collections and heap reuse (an item table the collector does
+	// not scan would let them be freed under the map)
+	c.Stage("pointer-values-survive-gc", c.Pick(24, 240), false, func(cs *drv.Case) {
+		r := cs.R
+		n := 300 + r.Intn(2500)
+		keys := genKeys(r, n)
+		type pv struct {
+			S string
+			P *int64
+			N int
+		}
+		svals := make([]string, len(keys))
+		pvals := make([]pv, len(keys))
+		scopy := make([]string, len(keys))
+		ncopy := make([]int64, len(keys))
+		for i := range keys {
+			b := gen.Bytes(r, 16+r.Intn(48))
+			svals[i] = string(b)                             // one allocation, handed to the map
+			scopy[i] = string(append([]byte("#"), b...))[1:] // another one, kept by the oracle
+			x := new(int64)
+			*x = int64(i)*7919 + 13
+			ncopy[i] = *x
+			pvals[i] = pv{S: string(b), P: x, N: i}
+		}
+		ms := strmap.NewFromSlice(keys, svals)
+		mp := strmap.NewFromSlice(keys, pvals)
+		for i := range svals { // drop every reference but the maps'
+			svals[i] = ""
+			pvals[i] = pv{}
+		}
+		svals, pvals = nil, nil
+		var junk [][]byte
+		for round := 0; round < 3; round++ {
+			runtime.GC()
+			for k := 0; k < 4*len(keys); k++ {
+				j := make([]byte, 16+k%48)
+				for x := range j {
+					j[x] = 'Z'
+				}
+				junk = append(junk, j)
+				if k%3 == 0 {
+					y := new(int64)
+					*y = -1
+					junk = append(junk, nil)
+					_ = y
+				}
+			}
+		}
+		bad := 0
+		for i, k := range keys {
+			gs, ok1 := ms.Get(k)
+			gp, ok2 := mp.Get(k)
+			if !ok1 || !ok2 || gs != scopy[i] || gp.S != scopy[i] || gp.P == nil || *gp.P != ncopy[i] || gp.N != i {
+				bad++
+			}
+		}
+		runtime.KeepAlive(junk)
+		cs.Desc = M{"keys": len(keys), "value_types": "string, struct{string,*int64,int}"}
+		if bad > 0 {
+			cs.Fail("strmap-value-collected", nil, M{"wrong": bad, "of": len(keys), "message": "values referenced only by the map changed after garbage collections and heap reuse"})
+		}
+		cs.Count(true, "ptrvals", cs.Idx)
+		cs.C.Obs("maps with pointer-holding values checked after collections", 2)
+	})
 
 	// (2c) reloading an instance with keys and values that were obtained from the same instance
 	c.Stage("reload-from-own-strings", c.Pick(600, 20000), false, func(cs *drv.Case) {
